@@ -3,10 +3,15 @@ package main
 import (
 	"bytes"
 	"fmt"
+	"io"
 	"math"
 	"os"
 	"path/filepath"
+	"runtime"
 	"strings"
+	"sync"
+	"sync/atomic"
+	"time"
 
 	"github.com/flosch/pongo2/v6"
 )
@@ -712,6 +717,29 @@ var c01Resource = []c01Res{
 	{"include-cycle-static-lazy-mix", func() map[string]string {
 		return map[string]string{"/main.tpl": "a{% include name %}", "/b.tpl": "b{% include \"/c.tpl\" %}", "/c.tpl": "c{% include name2 %}"}
 	}, pongo2.Context{"name": "/b.tpl", "name2": "/main.tpl"}},
+	// include cycles that pass through another construct with a context of its own on every round
+	{"include-cycle-through-block-super", func() map[string]string {
+		return map[string]string{"/main.tpl": "{% extends \"/base.tpl\" %}{% block b %}x{{ block.Super }}{% endblock %}", "/base.tpl": "{% block b %}{% include name %}{% endblock %}"}
+	}, pongo2.Context{"name": "/main.tpl"}},
+	{"include-cycle-through-super-chain-3", func() map[string]string {
+		return map[string]string{"/main.tpl": "{% extends \"/mid.tpl\" %}{% block b %}x{{ block.Super }}{% endblock %}", "/mid.tpl": "{% extends \"/base.tpl\" %}{% block b %}y{{ block.Super }}{% endblock %}", "/base.tpl": "{% block b %}{% with n=name %}{% include n %}{% endwith %}{% endblock %}"}
+	}, pongo2.Context{"name": "/main.tpl"}},
+	{"include-cycle-through-super-in-loop", func() map[string]string {
+		return map[string]string{"/main.tpl": "{% extends \"/base.tpl\" %}{% block b %}{% for i in z_two %}{{ block.Super }}{% endfor %}{% endblock %}", "/base.tpl": "{% block b %}{% include name %}{% endblock %}"}
+	}, pongo2.Context{"name": "/main.tpl", "z_two": []int{1}}},
+	{"include-cycle-through-imported-macro", func() map[string]string {
+		return map[string]string{"/main.tpl": "{% import \"/lib.tpl\" m %}{{ m() }}", "/lib.tpl": "{% macro m() export %}{% include name %}{% endmacro %}"}
+	}, pongo2.Context{"name": "/main.tpl"}},
+	{"include-cycle-through-filter-tag", func() map[string]string {
+		return map[string]string{"/main.tpl": "{% filter upper %}{% spaceless %}{% autoescape off %}{% include name %}{% endautoescape %}{% endspaceless %}{% endfilter %}"}
+	}, pongo2.Context{"name": "/main.tpl"}},
+	{"include-cycle-through-ifchanged-and-with", func() map[string]string {
+		return map[string]string{"/main.tpl": "{% ifchanged %}{% with a=1 %}{% include name with b=2 %}{% endwith %}{% endifchanged %}"}
+	}, pongo2.Context{"name": "/main.tpl"}},
+	{"include-cycle-through-included-child", func() map[string]string {
+		return map[string]string{"/main.tpl": "{% include \"/child.tpl\" %}", "/child.tpl": "{% extends \"/base.tpl\" %}{% block b %}{{ block.Super }}{% endblock %}", "/base.tpl": "{% block b %}{% include name only %}{% endblock %}"}
+	}, pongo2.Context{"name": "/child.tpl"}},
+	{"concurrent-loads", nil, nil},
 	{"extends-self", func() map[string]string { return map[string]string{"/main.tpl": "{% extends \"/main.tpl\" %}"} }, nil},
 	{"extends-cycle-2", func() map[string]string {
 		return map[string]string{"/main.tpl": "{% extends \"/b.tpl\" %}", "/b.tpl": "{% extends \"/main.tpl\" %}"}
@@ -759,8 +787,82 @@ var c01Resource = []c01Res{
 	}, nil},
 }
 
+// c01SlowLoader delays every fetch a little, so that concurrent callers pile up behind the one that is loading.
+type c01SlowLoader struct{ files map[string]string }
+
+func (l *c01SlowLoader) Abs(base, name string) string { return name }
+func (l *c01SlowLoader) Get(p string) (io.Reader, error) {
+	for i := 0; i < 50; i++ {
+		runtime.Gosched()
+	}
+	time.Sleep(300 * time.Microsecond)
+	s, ok := l.files[p]
+	if !ok {
+		return nil, fmt.Errorf("c01SlowLoader: no template %q", p)
+	}
+	if strings.HasPrefix(s, "PANIC") {
+		panic("c01SlowLoader: the loader panics for " + p)
+	}
+	return strings.NewReader(s), nil
+}
+
+// c01ConcurrentLoads: many goroutines ask one set for the same names at once - good, broken (lexer, parser, nested),
+// missing, and a name for which the loader panics (recovered by the caller) - through FromCache and FromFile, with
+// CleanCache in between: every call returns (a template or an error) and none blocks for ever (a hang is reported by
+// the watchdog of the case).
+func c01ConcurrentLoads(c *C) {
+	files := map[string]string{"/ok.tpl": "ok {{ 1 }}{% include \"/inc.tpl\" %}", "/inc.tpl": "inc", "/broken.tpl": "{% if %}", "/brokenlex.tpl": "{{ \"abc }}", "/brokennested.tpl": "x{% include \"/broken.tpl\" %}",
+		"/brokenparent.tpl": "{% extends \"/missing.tpl\" %}", "/panics.tpl": "PANIC"}
+	names := []string{"/ok.tpl", "/broken.tpl", "/missing.tpl", "/brokenlex.tpl", "/brokennested.tpl", "/brokenparent.tpl", "/panics.tpl"}
+	set := pongo2.NewSet("c01-concurrent", &c01SlowLoader{files: files})
+	for round := 0; round < 12; round++ {
+		name := names[round%len(names)]
+		var wg sync.WaitGroup
+		var bad int64
+		for g := 0; g < 8; g++ {
+			wg.Add(1)
+			go func(g int) {
+				defer wg.Done()
+				defer func() { recover() }() // the loader's own panic (for /panics.tpl) is the caller's to recover
+				var tpl *pongo2.Template
+				var err error
+				if g%4 == 3 {
+					tpl, err = set.FromFile(name)
+				} else {
+					tpl, err = set.FromCache(name)
+				}
+				if (tpl == nil) == (err == nil) {
+					atomic.AddInt64(&bad, 1)
+				}
+				if tpl != nil {
+					tpl.Execute(nil)
+				}
+			}(g)
+		}
+		wg.Wait()
+		c.Eval(8)
+		if bad != 0 {
+			c.Fail("template-and-error", D{"name": name, "why": "neither or both of template and error returned by concurrent FromCache/FromFile calls"})
+			return
+		}
+		// afterwards the set still answers (a lock left behind by a failed or panicking load would block here)
+		func() {
+			defer func() { recover() }()
+			set.CleanCache(name)
+			set.FromCache("/ok.tpl")
+			set.CleanCache()
+		}()
+	}
+	c.Cover("concurrent_loads_of_good_broken_missing_panicking_names")
+}
+
 func c01ResourceCase(c *C, i int) {
 	rc := c01Resource[i]
+	if rc.name == "concurrent-loads" {
+		c01ConcurrentLoads(c)
+		c.Nontrivial("r:" + rc.name)
+		return
+	}
 	files := rc.files()
 	set, _ := newSet(files)
 	ctx := rc.ctx
